@@ -5,9 +5,6 @@ VERIF = os.path.dirname(os.path.dirname(os.path.abspath(__file__)))
 sys.path.insert(0, VERIF)
 
 NOT_APPLICABLE = {
-    'C19': 'Thread schedules of std::thread/std::mutex code are outside the encodable fragment of the IR->C->CBMC route '
-           '(atomics are translated sequentially, libstdc++ threading bottoms out in pthread/futex externs, multi-threaded '
-           'planners are whole-program runs); a hand-written interleaving model would not be a check of the real code. See DESIGN.md C19.',
 }
 PENDING = 'check not built yet in this revision (see DESIGN.md §4 for the plan)'
 ALL = ['C%02d' % i for i in range(1, 21)]
